@@ -44,7 +44,7 @@ def make_case(i, rng, tier):
     for j, kind in enumerate(rng.sample(OTHER_KINDS, 3)):
         tasks.append(mk("src%d" % j, pre, source=kind))
     chunks = [rng.choice((1, 1, 2, 3, 5, 8, 16, 64)) for _ in range(rng.randint(1, 4))]
-    tasks.append(mk("file", pre, source="simfile", chunks=chunks))
+    tasks.append(mk("file", pre, source="simfile" if rng.random() < 0.7 else "simfile_text", chunks=chunks))
     cuts = sorted(rng.randrange(0, k + 1) for _ in range(rng.randint(1, 3)))
     tasks.append(mk("files", pre, source="simfiles", chunks=cuts))
     if inp["root"] in (model.STREAM, "Command", "Response") or rng.random() < 0.5:
